@@ -93,6 +93,13 @@ def sf_lines(rng, tier):
         shape = [rng.choice([1, 2, 3, 7, 100, 70000]) for _ in range(nd)]
         isrec = rng.below(2)
         xsz = rng.choice([1, 2, 4, 8])
+        # keep the variable (and a record index times any record size used below) inside the signed 64-bit range of MPI_Offset:
+        # larger offsets are not representable in the C function under test (C18 is about what enddef accepts there)
+        tot = xsz
+        for n in shape:
+            tot *= n
+        if tot >= 2 ** 40:
+            shape = [min(n, 100) for n in shape]
         st = [rng.range(0, n - 1) for n in shape]
         lines.append('FO %d %d %d %d %d %s %s' % (isrec, xsz, rng.choice([64, 1 << 20, 1 << 34]), rng.choice([0, 512, 1 << 32]), nd,
                                                ' '.join(map(str, shape)), ' '.join(map(str, st))))
